@@ -12,7 +12,7 @@
      * goroutine-local storage is never found missing, no unclassified panic (C14_storage_never_missing);
      * no table is left when all goroutines of the case have ended (C14_tls_released). *)
 From Coq Require Import ZArith NArith Bool List.
-From PcoreV Require Import Model.Base Model.Ctx.
+From PcoreV Require Import Model.Base Model.Ctx Model.CtxGid.
 Import ListNotations.
 
 Definition ctx_case := (list (list prog) * list nat * list (list event) * nat)%type.
@@ -38,3 +38,21 @@ Definition ctx_spec_check (c : ctx_case) : bool :=
   forallb (forallb ev_okb) observed && Nat.eqb leftover 0.
 
 Definition ctx_spec_violations (cs : list ctx_case) : list N := failing ctx_spec_check cs.
+
+(* gid_machine (model tie of Model/CtxGid.v): for a real goroutine the harness records its goid (read by the
+   harness' own parser from a 128 byte buffer), the bytes of the first line of runtime.Stack behind the numeral's
+   blank ("[running]:" + newline), the whole first line, and what threadlocal.Getg() (verif hook = getg()) returned
+   (None: it panicked).  The model must render the same first line and compute the same key. *)
+Definition gid_case := (N * list N * list N * option Z)%type.
+
+Definition gid_check (c : gid_case) : bool :=
+  let '(id, tail, line, observed) := c in
+  list_eqb N.eqb (stack_text id tail) line && option_eqb Z.eqb (getg id tail) observed.
+
+Definition gid_mismatches (cs : list gid_case) : list N := failing gid_check cs.
+
+(* gid_spec (no model): the key is the goid (C14_getg_exact) *)
+Definition gid_spec_check (c : gid_case) : bool :=
+  let '(id, _, _, observed) := c in option_eqb Z.eqb (Some (Z.of_N id)) observed.
+
+Definition gid_spec_violations (cs : list gid_case) : list N := failing gid_spec_check cs.
